@@ -86,6 +86,8 @@ template <class T> inline T make_int(uint64_t h) {
 }
 template <> inline bool make_int<bool>(uint64_t h) { return (h >> 3) & 1; }
 template <class T> inline T make_flt(uint64_t h) { long long k = (long long)((h >> 5) % 33554431ull) - 16777215; return (T)k / (T)8; }
+template <class T> inline typename std::enable_if<std::is_integral<T>::value, T>::type make_val(uint64_t h) { return make_int<T>(h); }
+template <class T> inline typename std::enable_if<std::is_floating_point<T>::value, T>::type make_val(uint64_t h) { return make_flt<T>(h); }
 inline std::string make_str(uint64_t h) {
   static const char *alpha[] = {"a", "b", "Z", "0", " ", "_", "\xc3\xa9", "\xe2\x82\xac", "q", "\"", "\\", "%", "x"};
   size_t n = (h >> 4) % 9; std::string s;
